@@ -8,13 +8,16 @@ if [ ! -d "$wt" ]; then git -C /repo worktree add -q --detach "$wt" HEAD || exit
 cd "$wt" || exit 2
 git checkout -q --detach "$(git -C /repo rev-parse HEAD)" 2>/dev/null; git checkout -q -- . ; rm -f tests/seed_demo.rs
 mkdir -p tests && cp "$d/demo.rs" tests/seed_demo.rs
-base=$(cargo test --offline ${feat:+--features "$feat"} --test seed_demo 2>&1 | grep -E "^test result" | head -1)
+base=$(cargo test --offline ${feat:+--features "$feat"} --test seed_demo 2>&1 | grep -E "^test result:" | head -1)
 echo "demo WITHOUT change: $base"
 if ! git apply --check "$d/patch.diff" 2>/dev/null; then echo "PATCH DOES NOT APPLY"; exit 1; fi
 git apply "$d/patch.diff"
-suite=$( (cargo test --offline --lib 2>&1; cargo test --offline --doc 2>&1) | grep -E "^test result" | tr '\n' ' ')
+suite=$( (cargo test --offline --lib 2>&1; cargo test --offline --doc 2>&1) | grep -E "^test result:" | tr '\n' ' ')
 echo "existing suite WITH change: $suite"
-with=$(cargo test --offline ${feat:+--features "$feat"} --test seed_demo 2>&1 | grep -E "^test result" | head -1)
+withall=$(cargo test --offline ${feat:+--features "$feat"} --test seed_demo 2>&1); withrc=$?
+with=$(echo "$withall" | grep -E "^test result:" | head -1)
+# a demo that aborts the process (e.g. an unsafe precondition check) prints no result line: that is a failure too
+if [ -z "$with" ] && [ $withrc -ne 0 ] && echo "$withall" | grep -q "signal: 6\|SIGABRT\|process didn't exit successfully"; then with="0 passed; 1 failed (process aborted)"; fi
 echo "demo WITH change: $with"
 git checkout -q -- . ; rm -f tests/seed_demo.rs
 case "$base" in *"1 passed"*"0 failed"*) ;; *) echo "VERDICT: demo does not pass on the unchanged code"; exit 1;; esac
